@@ -2,7 +2,8 @@
 # Runs the repository's pinned baseline suite with the verification guard OFF and compares the
 # result with /root/.vp/BASELINE.json (stable_pass). Exit 0 iff every stable test passed.
 set -u
-cd /repo || exit 2
+REPO=${REPO:-/repo}
+cd "$REPO" || exit 2
 export CARGO_NET_OFFLINE=true
 OUT=${1:-/tmp/baseline_junit}
 rm -rf "$OUT"; mkdir -p "$OUT"
